@@ -920,6 +920,12 @@ pub fn scenario_p(seed: u64) -> MadeP {
     let mut w = World::new(seed);
     w.set_stepping(Stepping::Lazy);
     let mut table = p_table();
+    // sometimes eth1 has IPv4 only: what its peers say about their IPv6 addresses reaches us over IPv4 then, and
+    // is learned on eth1 like everything else that arrives there
+    let v4_only_eth1 = rng.chance(1, 4);
+    if v4_only_eth1 {
+        table[1] = IfSpec::new("eth1", 3, 1, &[("192.168.1.5", 24)]);
+    }
     if rng.chance(1, 3) {
         table.push(IfSpec::new("wlan0", 4, 2, &[("10.4.0.5", 24)]));
     }
@@ -948,6 +954,7 @@ pub fn scenario_p(seed: u64) -> MadeP {
     rng.shuffle(&mut order);
     for k in order {
         let (label, ifi, over4, a4, a6) = &plan[k];
+        let over4 = &(*over4 || (v4_only_eth1 && *ifi == 3));
         // (host names in the letter case their owners chose; address records may spell them differently again)
         let host_spelling = if mixed_case { format!("{}{}-Host.local", label[..1].to_uppercase(), &label[1..]) } else { format!("{label}-host.local") };
         let mut s = Svc::new(ty, label, &host_spelling, [0, 0, 0, 0]);
@@ -1008,9 +1015,14 @@ pub fn scenario_p(seed: u64) -> MadeP {
             settle_ms = 0;
         }
     }
+    // (with IPv4 only on eth1, switching off its one address or the interface by name takes everything learned there)
+    let loss = match loss {
+        Loss::Disabled(kinds, _) if v4_only_eth1 && matches!(kinds[0], Kind::Name(_) | Kind::Addr(_)) && !matches!(&kinds[0], Kind::Addr(a) if a.is_ipv6()) => Loss::Disabled(kinds, vec![(3, true)]),
+        other => other,
+    };
     let lost = if matches!(loss, Loss::Gone(_)) { lost } else { 3 };
     let surviving = if lost == 3 { 2 } else { 3 };
-    let desc = format!("interfaces={} loss={:?} of #{lost} hostname-search={} mixed-case-hosts={mixed_case}", table.len(), loss, host_chan.is_some());
+    let desc = format!("interfaces={} eth1-ipv4-only={v4_only_eth1} loss={:?} of #{lost} hostname-search={} mixed-case-hosts={mixed_case}", table.len(), loss, host_chan.is_some());
     w.run_for(settle_ms + 200 + rng.below(600));
     // later events: a second search (answered from the cache), a changed TXT of instc on the surviving link, a host name search
     chans.extend(w.browse(h, ty));
